@@ -72,8 +72,8 @@ func limitOf(st core.Strategy) int {
 // success / ignore / dropped -- success and dropped feed the window and trigger the sample-driven
 // update to L2), all interleavings.  Limits L in {1,2,3}, one or two tokens held, L2 arbitrary >= 1.
 func verifC01Body(kind int) {
-	L := 1 + verif.Choice("limit", 3)
-	held := 1 + verif.Choice("held", 2)
+	L := 1 + verif.Choice("limit", verif.Tiered(3, 5))
+	held := 1 + verif.Choice("held", verif.Tiered(2, 3))
 	verif.Assume(held <= L)
 	L2 := verif.Int("newEstimate")
 	verif.Assume(L2 >= 1 && L2 < 1<<30)
